@@ -287,6 +287,41 @@ def gen_numpy(ck):
     if rng.random() < 0.2:
         gd, w = graphs.full_word_def(rng)
         return {"gd": gd.to_json(), "cfg": {"bit_encoding_width": rng.choice(["auto", w]) if max(gd.central) == 2**w - 1 else w, "random_seed": 1}}
+    if rng.random() < 0.25:
+        # codes that almost fill the 64-bit word (56..63 bits): long strings over 2 or 4 letters with few marked positions,
+        # moved by a long cycle, its inverse and a few local permutations (with inverses): 3..7 generators
+        # the number of generators fixes how many bits an index of a generator needs; the code length is chosen so that
+        # code bits + index bits lands on / next to the word size
+        def build(n_):
+            out = []
+            base_ = [list(range(1, n_)) + [0]]
+            for mv in moves:
+                p_ = list(range(n_))
+                for a_, b_ in zip(mv, mv[1:] + mv[:1]):
+                    p_[a_] = b_
+                base_.append(p_)
+            for p_ in base_ + [graphs.inv_perm(p_) for p_ in base_]:
+                if p_ not in out:
+                    out.append(p_)
+            return out
+
+        moves = [rng.sample(range(20), rng.randint(2, 3)) for _ in range(rng.randint(1, 3))]   # local cycles on low positions
+        tag = max(1, (len(build(40)) - 1).bit_length())
+        total = rng.choice([64, 64, 64, 63, 65, 62])
+        w = rng.choice([1, 1, 2])
+        bits = min(63, total - tag)
+        bits -= bits % w
+        n = bits // w
+        gens = build(n)
+        central = [0] * n
+        marks = rng.sample(range(n), 2)
+        central[marks[0]] = 1
+        central[marks[1]] = rng.randrange(1, 2**w)
+        if rng.random() < 0.5:
+            central[n - 1] = 2**w - 1        # the highest code bits are used
+        gd = graphs.GDef("perm", gens, central, tag="numpy-near-full-word")
+        if gd.brute_layers(cap=20000) is not None:
+            return {"gd": gd.to_json(), "cfg": {"bit_encoding_width": w, "random_seed": 1}}
     for _ in range(300):
         n = rng.randint(3, 12)
         k = rng.randint(1, 3)
